@@ -12,6 +12,7 @@ import (
 	"os"
 	"time"
 	"runtime"
+	"runtime/debug"
 	"strconv"
 	"strings"
 	"sync"
@@ -228,6 +229,13 @@ func (a *svAcc) fail(key, input, format string, args ...any) {
 func svCount(c *Ctx, n int64) {
 	c.Evals += n
 	c.NT(n)
+}
+
+// svTuneGC: the parallel sweeps allocate small short-lived objects on every core (regexp captures,
+// error values); with the default GOGC the tiny live heap makes the collector run hundreds of times.
+func svTuneGC() func() {
+	old := debug.SetGCPercent(1600)
+	return func() { debug.SetGCPercent(old) }
 }
 
 func svSetMax(n int) func() {
@@ -632,6 +640,7 @@ func svEmitParse(c *Ctx, s string, k int) {
 
 func propC03(c *Ctx) {
 	defer svSetMax(1024)()
+	defer svTuneGC()()
 	acc := &svAcc{c: c, mu: &sync.Mutex{}}
 
 	// 1. every string over the alphabet up to a length, on all cores
@@ -1216,6 +1225,7 @@ func svRelatedPre(r *Rng, s string) string {
 
 func propC06(c *Ctx) {
 	defer svSetMax(1024)()
+	defer svTuneGC()()
 	acc := &svAcc{c: c, mu: &sync.Mutex{}}
 	maxLen, opStripe, helperStripe := 4, 70, 40
 	if c.Thorough {
@@ -1426,7 +1436,7 @@ func svCheckNext(a *svAcc, v sem.Ver, pre *svPre) {
 
 // svCheckOrder: the coherence claims of C14 on one ordered pair of valid versions. spec/known is the
 // independent expectation when the pair is outside C06's excluded region.
-func svCheckOrder(a *svAcc, va, vb sem.Ver, alt string, spec int, known bool) {
+func svCheckOrder(a *svAcc, va, vb sem.Ver, alt string, sel int, spec int, known bool) {
 	r, rr := va.Compare(vb), vb.Compare(va)
 	if r < -1 || r > 1 {
 		a.fail("C14.range", svCmpLine(va, vb), "%v vs %v: %d", va, vb, r)
@@ -1437,13 +1447,25 @@ func svCheckOrder(a *svAcc, va, vb sem.Ver, alt string, spec int, known bool) {
 	if known && r != spec {
 		a.fail("C14.spec", svCmpLine(va, vb), "%v vs %v: %d, §11 says %d", va, vb, r, spec)
 	}
+	// build metadata never matters (one of three variants per pair); reflexivity once per element
 	va2, vb2 := va, vb
 	va2.Build, vb2.Build = alt, alt+".x"
-	if va.Compare(va) != 0 || va.Compare(va2) != 0 || va2.Compare(va) != 0 {
-		a.fail("C14.refl", svCmpLine(va, va2), "%v vs itself / %v: %d %d %d", va, va2, va.Compare(va), va.Compare(va2), va2.Compare(va))
+	if sel%8 == 0 || (va.PreRelease == vb.PreRelease && va.Build == vb.Build) {
+		if va.Compare(va) != 0 || va.Compare(va2) != 0 || va2.Compare(va) != 0 {
+			a.fail("C14.refl", svCmpLine(va, va2), "%v vs itself / %v: %d %d %d", va, va2, va.Compare(va), va.Compare(va2), va2.Compare(va))
+		}
 	}
-	if x, y, z := va2.Compare(vb), va.Compare(vb2), va2.Compare(vb2); x != r || y != r || z != r {
-		a.fail("C14.build", svCmpLine(va2, vb2), "%v vs %v: %d, with other build metadata %d %d %d", va, vb, r, x, y, z)
+	var x int
+	switch sel % 3 {
+	case 0:
+		x = va2.Compare(vb)
+	case 1:
+		x = va.Compare(vb2)
+	default:
+		x = va2.Compare(vb2)
+	}
+	if x != r {
+		a.fail("C14.build", svCmpLine(va2, vb2), "%v vs %v: %d, with other build metadata (variant %d of %v / %v) %d", va, vb, r, sel%3, va2, vb2, x)
 	}
 	if va.Major == vb.Major && va.Minor == vb.Minor && va.Patch == vb.Patch && va.PreRelease == vb.PreRelease && r != 0 {
 		a.fail("C14.equal", svCmpLine(va, vb), "%v vs %v: %d", va, vb, r)
@@ -1577,6 +1599,7 @@ func svSpoil(r *Rng, t string) string {
 
 func propC14(c *Ctx) {
 	defer svSetMax(1024)()
+	defer svTuneGC()()
 	acc := &svAcc{c: c, mu: &sync.Mutex{}}
 	maxLen, opStripe, helperStripe := 4, 110, 60
 	if c.Thorough {
@@ -1608,7 +1631,7 @@ func propC14(c *Ctx) {
 			if ex {
 				row.excl++
 			}
-			svCheckOrder(acc, va, vb, svBuilds[(i+2*j+2)%len(svBuilds)], spec, !ex)
+			svCheckOrder(acc, va, vb, svBuilds[(i+2*j+2)%len(svBuilds)], i+j, spec, !ex)
 			h := i*131 + j
 			if h%helperStripe == helperOff {
 				row.helpers++
@@ -1661,7 +1684,9 @@ func propC14(c *Ctx) {
 					va, vb := svVer(ca, mixed[i], svBuilds[(i+ia)%len(svBuilds)]), svVer(cb, mixed[j], svBuilds[(j+ib+1)%len(svBuilds)])
 					spec, ex := svSpecCmpVer(ca, cb, &mp[i], &mp[j])
 					nm++
-					svCheckOrder(acc, va, vb, "q", spec, !ex)
+					svCheckOrder(acc, va, vb, "q", i+j+ia, spec, !ex)
+					svCheckOrder(acc, va, vb, "q.0", i+j+ia+1, spec, !ex)
+					svCheckOrder(acc, va, vb, "-", 8*(i+j+ia)+2, spec, !ex)
 					svCheckHelpers(acc, svText(va), svText(vb), false)
 					svCheckHelpers(acc, "v"+svText(va), "v"+svText(vb), true)
 					svCheckHelpers(acc, "v"+svText(va), svText(vb), false)
@@ -1710,7 +1735,8 @@ func propC14(c *Ctx) {
 			svCheckHelpers(acc, ta, tb, t%2 == 0)
 		}()
 		if t < 12000 || t%6 == 0 {
-			c.Op([]string{"sem.cmpstr ", "sem.latest "}[t%2] + svHelperEntries[t/2%3] + " " + strconv.Itoa(ml) + " " + hx([]byte(ta)) + " " + hx([]byte(tb)))
+			k++
+			c.Op([]string{"sem.cmpstr ", "sem.latest "}[k%2] + svHelperEntries[k/2%3] + " " + strconv.Itoa(ml) + " " + hx([]byte(ta)) + " " + hx([]byte(tb)))
 		}
 	}
 
@@ -1751,7 +1777,7 @@ func propC14(c *Ctx) {
 		a, b := svParsePre(pa), svParsePre(pb)
 		spec, ex := svSpecCmpVer(ca, cb, &a, &b)
 		c.Check("rand " + svText(va) + " " + svText(vb))
-		svCheckOrder(acc, va, vb, "alt.1", spec, !ex)
+		svCheckOrder(acc, va, vb, "alt.1", t, spec, !ex)
 		if t%4 == 0 {
 			svCheckHelpers(acc, svText(va), svText(vb), t%8 == 0)
 			svCheckHelpers(acc, "v"+svText(va), "v"+svText(vb), t%8 != 0)
